@@ -186,12 +186,17 @@ func (r *reader) readint64(tag byte) (int64, error) {
 }
 
 func (r *reader) readFloat32(tag byte) (float32, error) {
-	if b, err := r.readBytes(tag); err != nil {
+	b, err := r.readBytes(tag)
+	if err != nil {
 		return 0, err
-	} else {
-		bits := binary.LittleEndian.Uint32(b)
-		return math.Float32frombits(bits), nil
 	}
+
+	if len(b) < 4 {
+		return 0, io.ErrUnexpectedEOF
+	}
+
+	bits := binary.LittleEndian.Uint32(b)
+	return math.Float32frombits(bits), nil
 }
 
 func read(r io.Reader) (map[byte][]bucket, error) {
